@@ -7,6 +7,7 @@ package ugo
 import (
 	"fmt"
 	"io"
+	"math"
 	"reflect"
 
 	"github.com/ozanh/ugo/internal"
@@ -476,6 +477,14 @@ func (c *Compiler) addConstant(obj Object) (index int) {
 				fmt.Sprintf("CONST %04d %[2]T(%[2]v)", index, obj))
 		}
 	}()
+
+	if f, ok := obj.(Float); ok && f == 0 && math.Signbit(float64(f)) {
+		// -0.0 and 0.0 are equal as cache keys but they are different
+		// constants, do not cache negative zero.
+		index = len(c.constants)
+		c.constants = append(c.constants, obj)
+		return
+	}
 
 	switch obj.(type) {
 	case Int, Uint, String, Bool, Float, Char, *UndefinedType:
